@@ -330,7 +330,8 @@ Do(in) ==
 
 In(a, c) == [a |-> a, c |-> c]
 
-AddPublisher(p)    == pstat[p] = "idle" /\ (st.alive \/ ~confGone) /\ Do(In("AddPublisher", p))
+\* (a publisher that already holds the path may announce again: it then competes with itself)
+AddPublisher(p)    == pstat[p] \in {"idle", "attached"} /\ (st.alive \/ ~confGone) /\ Do(In("AddPublisher", p))
 AddPublisherBad(p) == pstat[p] = "idle" /\ (st.alive \/ ~confGone) /\ SourceKind = "publisher" /\ Do(In("AddPublisherBad", p))
 RemovePublisher(p) == pstat[p] \in {"attached", "closed"} /\ Do(In("RemovePublisher", p))
 \* a publisher can write as long as it holds a handle: while attached, and also after it was replaced
